@@ -180,6 +180,39 @@ def nested_cases(r, n):
         out.append((" ".join(stmts), verdicts, r.choice(["always", "final", "dynamic"])))
     return out
 
+CONTEXTS = [":- q'.", ":- q, r''.", "not q :- r'.", "not not q' :- r.", "p' :- q.", "{ p } :- 'q.", ":- &tel { > q }.", "&tel { > q } :- r.",
+            ":- not not q', 'r.", "#external q.", "r :- 'q.", ":- q' : r."]
+
+def context_cases(r, tier):
+    """a statement that is acceptable on its own, then a grid statement: the verdict of the second must not depend on the first
+    (no traversal state may survive from one statement to the next)"""
+    fs = [f for f in forms() if f[0] in ("p'", "p''", "'p", "_p", "p", "-p'", "'p'")]
+    ctxs = [c for c in CONTEXTS if outcome("#program always. " + c) == "ok"]      # only statements acceptable on their own
+    out = []
+    for pos, tpls in POS.items():
+        for tpl in ([tpls] if isinstance(tpls, str) else tpls):
+            for f in fs:
+                for c in ctxs:
+                    out.append((pos, tpl, f, c, r.choice(["", "", "#program always. ", "#program dynamic. "])))
+    if tier == "quick":
+        out = r.sample(out, 1500)
+    return out
+
+def _context_chunk(cases):
+    lines = [tl.sexp(("placement", c[0], c[2][1], c[2][2], c[2][3])) for c in cases]
+    outs = SPEC.batch(lines)
+    fails = []
+    for c, so in zip(cases, outs):
+        pos, tpl, (ftxt, l, t, ini), ctxt, sep = c
+        stmt = tpl.replace("@", ftxt)
+        text = "#program always. {} {}{}".format(ctxt, sep, stmt)
+        got = outcome(text)
+        if got != so:
+            alone = outcome("#program always. " + (sep + stmt if sep else stmt))
+            fails.append({"kind": "placement-after-context", "text": text, "position": pos, "form": ftxt, "expected": so, "got": got,
+                          "same_statement_alone": alone})
+    return len(cases), fails
+
 def search(ctx, deep):
     r = random.Random(ctx.seed * 101 + 2)
     cases = grid(ctx.tier if not deep else "thorough", r)
@@ -187,6 +220,10 @@ def search(ctx, deep):
     fails = []
     for c, f in par.pmap(_search_chunk, par.chunks(cases, ctx.jobs * 2), ctx.jobs):
         n += c
+        fails += f
+    nctx = 0
+    for c, f in par.pmap(_context_chunk, par.chunks(context_cases(r, ctx.tier if not deep else "thorough"), ctx.jobs * 2), ctx.jobs):
+        nctx += c
         fails += f
     for text, want, run in THEORY_CASES:
         got = outcome(text, run)
@@ -207,7 +244,7 @@ def search(ctx, deep):
         got = outcome(full)
         if got != want:
             fails.append({"kind": "nested-placement", "text": full, "expected": want, "got": got})
-    return {"grid_cases": n, "theory_atom_cases": len(THEORY_CASES), "nested_statements": len(nested),
+    return {"grid_cases": n, "after_context_cases": nctx, "theory_atom_cases": len(THEORY_CASES), "nested_statements": len(nested),
             "sample": {"program": "#program final. " + POS["negDisjElem"].replace("@", "p''")}}, fails
 
 def replay(obj):
